@@ -265,30 +265,40 @@ func (u *upstream) getClient(addr string) (*client, error) {
 }
 
 func (u *upstream) createClient(addr string) (*client, error) {
-	u.clientsMu.Lock()
-	defer u.clientsMu.Unlock()
-
-	select {
-	case <-u.quit:
-		return nil, errors.New(upstreamExited)
-	default:
-	}
-	c, ok := u.loadClients()[addr]
-	if ok {
-		return c, nil
+	if c, err := u.lookupClient(addr); c != nil || err != nil {
+		return c, err
 	}
 
+	// NOTE: Dial without the lock. The connect may take as long as its
+	// timeout, and everything else which touches the clients (the removal of
+	// an exited client, the creation of the client of another host, the stop
+	// of the upstream) would have to wait for it.
 	conn, err := netutil.Dial("tcp", addr, *u.cfg.ConnectTimeout)
 	vhook.At("redis.upstream.create_client.after_dial")
 	if err != nil {
 		return nil, err
+	}
+
+	u.clientsMu.Lock()
+	defer u.clientsMu.Unlock()
+	// the upstream may have been stopped, or the client created by someone
+	// else (e.g. all clients were reset), while dialing.
+	select {
+	case <-u.quit:
+		conn.Close()
+		return nil, errors.New(upstreamExited)
+	default:
+	}
+	if c, ok := u.loadClients()[addr]; ok {
+		conn.Close()
+		return c, nil
 	}
 	options := []clientOption{
 		withKeyCounter(u.hkc.AllocCounter(addr)),
 		withRedirectionCb(u.handleRedirection),
 		withClusterDownCb(u.handleClusterDown),
 	}
-	c, err = newClient(conn, u.cfg, u.logger, options...)
+	c, err := newClient(conn, u.cfg, u.logger, options...)
 	if err != nil {
 		return nil, err
 	}
@@ -306,6 +316,19 @@ func (u *upstream) createClient(addr string) (*client, error) {
 	}()
 	u.addClientLocked(addr, c)
 	return c, nil
+}
+
+// lookupClient returns the client of given address if there is one, or an
+// error if the upstream has been stopped.
+func (u *upstream) lookupClient(addr string) (*client, error) {
+	u.clientsMu.Lock()
+	defer u.clientsMu.Unlock()
+	select {
+	case <-u.quit:
+		return nil, errors.New(upstreamExited)
+	default:
+	}
+	return u.loadClients()[addr], nil
 }
 
 func (u *upstream) addClientLocked(addr string, c *client) {
